@@ -264,6 +264,10 @@ where
 
         // Main loop
         let result = loop {
+            #[cfg(oxmpl_verif)]
+            if crate::verif::tick() {
+                break Err(PlanningError::Timeout);
+            }
             // 1. Check for timeout
             if start_time.elapsed() > timeout {
                 break Err(PlanningError::Timeout);
@@ -335,5 +339,19 @@ where
         // Hand the generator back so that later calls continue the same (seeded) stream.
         self.rng = Some(rng);
         result
+    }
+}
+
+#[cfg(oxmpl_verif)]
+#[allow(clippy::type_complexity)]
+impl<S: State + Clone, SP: StateSpace<StateType = S>, G: Goal<S>> RRTConnect<S, SP, G> {
+    /// Read-only snapshot of both search trees: (state, parent index) per node.
+    pub fn verif_trees(&self) -> (Vec<(S, Option<usize>)>, Vec<(S, Option<usize>)>) {
+        let snap = |t: &Vec<Node<S>>| {
+            t.iter()
+                .map(|n| (n.state.clone(), n.parent_index))
+                .collect::<Vec<_>>()
+        };
+        (snap(&self.start_tree), snap(&self.goal_tree))
     }
 }
